@@ -6,8 +6,8 @@ From Onet Require Import Net.C09Router.
 (* ---- classifier ------------------------------------------------------------- *)
 
 Lemma classify_drop_iff c :
-  classify c = Drop <-> c = ETimeout \/ c = EClosed \/ c = EEOF \/ c = EUnknown.
-Proof. destruct c; cbn; split; intros H; try discriminate; auto; intuition discriminate. Qed.
+  classify c = Drop <-> c = ETimeout \/ c = EClosed \/ c = EEOF \/ c = EUnknown \/ c = ETooBig.
+Proof. destruct c; cbn; split; intros H; try discriminate; auto 6; intuition discriminate. Qed.
 
 Lemma classify_continue_iff c : classify c = Continue <-> c = ECanceled \/ c = EOther.
 Proof. destruct c; cbn; split; intros H; try discriminate; auto; intuition discriminate. Qed.
@@ -15,11 +15,11 @@ Proof. destruct c; cbn; split; intros H; try discriminate; auto; intuition discr
 Lemma classify_total c : classify c = Drop \/ classify c = Continue.
 Proof. destruct c; cbn; auto. Qed.
 
-Lemma handle_error_never_other e : handle_error e <> EOther.
+Lemma handle_error_never_other e : handle_error e <> EOther /\ handle_error e <> ETooBig.
 Proof.
   unfold handle_error.
   destruct (has_use_of_closed e || has_broken_pipe e), (has_canceled e), (is_eof e),
-    (negb (is_neterr e)), (is_timeout e); discriminate.
+    (negb (is_neterr e)), (is_timeout e); split; discriminate.
 Qed.
 
 (* the raw errors that keep the receive loop running are exactly the "canceled" ones *)
@@ -1578,13 +1578,13 @@ Proof.
 Qed.
 
 Theorem classifier_total_all c :
-  (classify c = Drop <-> c = ETimeout \/ c = EClosed \/ c = EEOF \/ c = EUnknown) /\
+  (classify c = Drop <-> c = ETimeout \/ c = EClosed \/ c = EEOF \/ c = EUnknown \/ c = ETooBig) /\
   (classify c = Continue <-> c = ECanceled \/ c = EOther) /\
   (classify c = Drop \/ classify c = Continue).
 Proof. exact (conj (classify_drop_iff c) (conj (classify_continue_iff c) (classify_total c))). Qed.
 
 Theorem raw_recoverable_iff e :
-  handle_error e <> EOther /\
+  (handle_error e <> EOther /\ handle_error e <> ETooBig) /\
   (classify (handle_error e) = Continue <->
    has_use_of_closed e = false /\ has_broken_pipe e = false /\ has_canceled e = true).
 Proof. exact (conj (handle_error_never_other e) (raw_continue_iff e)). Qed.
@@ -1701,3 +1701,124 @@ Theorem flood_outcome_pinned :
   flood_outcome false 200 300 = (false, true, false, false) /\
   flood_outcome false 200 450 = (false, false, false, false).
 Proof. repeat split; vm_compute; reflexivity. Qed.
+
+(* ---- the router's mutex: no thread ever waits for ever ------------------------------------------------- *)
+
+(* a program is well bracketed: sections do not nest and are closed *)
+Fixpoint wfp (held : bool) (p : lockprog) : Prop :=
+  match p with
+  | [] => held = false
+  | ILock :: r => held = false /\ wfp true r
+  | IUnlock :: r => held = true /\ wfp false r
+  | IWork :: r => wfp held r
+  end.
+
+Definition holds (s : msys) (t : nat) : bool := match mu s with Some h => h =? t | None => false end.
+
+Definition MInv (s : msys) : Prop :=
+  (forall t p, nth_error (progs s) t = Some p -> wfp (holds s t) p) /\
+  (forall h, mu s = Some h -> h < length (progs s)).
+
+Lemma set_nth_length {A} (l : list A) i x : length (set_nth l i x) = length l.
+Proof. revert i; induction l as [|y r IH]; intros [|i]; cbn; auto. Qed.
+
+Lemma nth_set_nth_same {A} (l : list A) i x : i < length l -> nth_error (set_nth l i x) i = Some x.
+Proof. revert i; induction l as [|y r IH]; intros [|i] H; cbn in *; try lia; auto. apply IH. lia. Qed.
+
+Lemma nth_set_nth_other {A} (l : list A) i j x : i <> j -> nth_error (set_nth l i x) j = nth_error l j.
+Proof. revert i j; induction l as [|y r IH]; intros [|i] [|j] H; cbn; auto; congruence. Qed.
+
+Lemma mstep_inv s t s' : MInv s -> mstep s t = Some s' -> MInv s'.
+Proof.
+  intros [W B] H. unfold mstep in H.
+  destruct (nth_error (progs s) t) as [p|] eqn:Ep; [|discriminate].
+  assert (Lt : t < length (progs s)) by (apply nth_error_Some; congruence).
+  pose proof (W t p Ep) as Wt.
+  destruct p as [|i r]; [discriminate|]. destruct i.
+  - destruct (mu s) eqn:Em; [discriminate|]. inv_some. cbn in Wt. destruct Wt as [_ Wr].
+    split; cbn; [|intros h Hh; inv_some; now rewrite set_nth_length].
+    intros t0 p0 Hp. unfold holds. cbn. destruct (Nat.eq_dec t0 t) as [->|Hne].
+    + rewrite nth_set_nth_same in Hp by auto. inv_some. now rewrite Nat.eqb_refl.
+    + rewrite nth_set_nth_other in Hp by auto. specialize (W t0 p0 Hp). unfold holds in W. rewrite Em in W.
+      apply Nat.eqb_neq in Hne. rewrite Nat.eqb_sym, Hne. exact W.
+  - destruct (mu s) as [h|] eqn:Em; [|discriminate]. destruct (h =? t) eqn:Eh; [|discriminate].
+    apply Nat.eqb_eq in Eh. subst h. inv_some. cbn in Wt. destruct Wt as [_ Wr].
+    split; cbn; [|intros h Hh; discriminate].
+    intros t0 p0 Hp. unfold holds. cbn. destruct (Nat.eq_dec t0 t) as [->|Hne].
+    + rewrite nth_set_nth_same in Hp by auto. now inv_some.
+    + rewrite nth_set_nth_other in Hp by auto. specialize (W t0 p0 Hp). unfold holds in W. rewrite Em in W.
+      apply Nat.eqb_neq in Hne. rewrite Nat.eqb_sym, Hne in W. exact W.
+  - inv_some. cbn in Wt. split; cbn; [|intros h Hh; rewrite set_nth_length; auto].
+    intros t0 p0 Hp. unfold holds. cbn. destruct (Nat.eq_dec t0 t) as [->|Hne].
+    + rewrite nth_set_nth_same in Hp by auto. inv_some. exact Wt.
+    + rewrite nth_set_nth_other in Hp by auto. exact (W t0 p0 Hp).
+Qed.
+
+Lemma mrun_inv ts : forall s s', MInv s -> mrun s ts = Some s' -> MInv s'.
+Proof.
+  induction ts as [|t r IH]; cbn; intros s s' I H; [now inv_some|].
+  destruct (mstep s t) as [s1|] eqn:E; [|discriminate]. apply (IH s1 s'); auto. eapply mstep_inv; eauto.
+Qed.
+
+Lemma MInv_init ps : Forall (wfp false) ps -> MInv (mkM None ps).
+Proof.
+  intros F. split; cbn; [|intros h H; discriminate].
+  intros t p Hp. unfold holds. cbn. rewrite Forall_forall in F. apply F. eapply nth_error_In; eauto.
+Qed.
+
+(* With well-bracketed programs (the pinned router: nothing is called with the mutex held except the
+   closing of connections in Stop), in every reachable state: the holder of the mutex can take its
+   next step, and if nobody holds it every unfinished thread can take its next step. Hence no thread
+   waits for ever: whoever waits for the mutex waits for a holder that can always run on to its Unlock. *)
+Theorem mutex_never_stuck ps ts s :
+  Forall (wfp false) ps -> mrun (mkM None ps) ts = Some s ->
+  (forall h, mu s = Some h -> exists s', mstep s h = Some s') /\
+  (mu s = None -> forall t p, nth_error (progs s) t = Some p -> p <> [] -> exists s', mstep s t = Some s').
+Proof.
+  intros F R. pose proof (mrun_inv _ _ _ (MInv_init _ F) R) as [W B]. split.
+  - intros h Hh. pose proof (B h Hh) as Lt. destruct (nth_error (progs s) h) as [p|] eqn:Ep;
+      [|apply nth_error_None in Ep; lia].
+    pose proof (W h p Ep) as Wp. unfold holds in Wp. rewrite Hh, Nat.eqb_refl in Wp.
+    unfold mstep. rewrite Ep. destruct p as [|i r]; [cbn in Wp; discriminate|]. destruct i; cbn in Wp.
+    + destruct Wp; discriminate.
+    + rewrite Hh, Nat.eqb_refl. eauto.
+    + eauto.
+  - intros Hm t p Ep Hne. pose proof (W t p Ep) as Wp. unfold holds in Wp. rewrite Hm in Wp.
+    unfold mstep. rewrite Ep. destruct p as [|i r]; [congruence|]. destruct i; cbn in Wp.
+    + rewrite Hm. eauto.
+    + destruct Wp; discriminate.
+    + eauto.
+Qed.
+
+(* the programs of the pinned router are well bracketed, whatever the handlers do *)
+Lemma wfp_app p q : wfp false p -> wfp false q -> wfp false (p ++ q).
+Proof.
+  assert (G : forall b, wfp b p -> wfp false q -> wfp b (p ++ q)).
+  { induction p as [|i r IH]; intros b Hp Hq; cbn in *.
+    - subst. exact Hq.
+    - destruct i; cbn in *; intuition. }
+  apply G.
+Qed.
+
+Lemma wfp_handlers hs : wfp false (concat (map handler_prog hs)).
+Proof.
+  induction hs as [|h r IH]; cbn; auto. apply wfp_app; auto. destruct h; cbn; auto.
+Qed.
+
+Theorem router_programs_well_bracketed hs :
+  wfp false (loop_exit_prog false hs) /\ wfp false send_prog /\ wfp false stop_prog.
+Proof.
+  split; [|split; cbn; auto 10].
+  unfold loop_exit_prog. cbn [app]. repeat (apply wfp_app; cbn; auto). apply wfp_handlers.
+Qed.
+
+(* seeded change C09-A (handlers called with the mutex held), one re-entrant handler, one Send: after the
+   receive loop has entered the handler nothing can move any more -- the loop waits for the mutex it
+   holds, the Send waits for the loop *)
+Theorem handlers_under_mutex_refuted :
+  exists s, mrun (mkM None [loop_exit_prog true [true]; send_prog]) [0; 0; 0; 0; 0] = Some s /\
+            mstep s 0 = None /\ mstep s 1 = None /\
+            nth_error (progs s) 0 <> Some [] /\ nth_error (progs s) 1 <> Some [].
+Proof.
+  eexists. split; [vm_compute; reflexivity|]. repeat split; vm_compute; congruence.
+Qed.
